@@ -105,7 +105,11 @@ pub fn parse_datetime(s: &str) -> Result<(NaiveDateTime, NaiveDateTime), String>
         }
         None => {
             // the English date parser slices its input by bytes and panics on multi-byte characters
-            if s.len() >= 5 && s.is_ascii() {
+            // a signed number is an offset in days, however many digits it has (`-1000`)
+            let day_offset = (s.starts_with('+') || s.starts_with('-'))
+                && s.len() >= 2
+                && s[1..].chars().all(|c| c.is_ascii_digit());
+            if s.len() >= 5 && s.is_ascii() && !day_offset {
                 match parse_english_date(s) {
                     Some(date_time) => {
                         let date_time = date_time.naive_local();
